@@ -10,16 +10,114 @@ import (
 
 	"github.com/cedar-policy/cedar-go/internal/consts"
 	"github.com/cedar-policy/cedar-go/internal/extensions"
+	"github.com/cedar-policy/cedar-go/internal/parser"
 	"github.com/cedar-policy/cedar-go/types"
 	"github.com/cedar-policy/cedar-go/x/exp/ast"
 )
+
+// The text codec can only spell names made of identifiers: a JSON policy naming an entity type "User || true" or an
+// annotation "a b" would be written as Cedar text that reads as something else, so such documents are not policies.
+
+// spelledAs reports whether s is exactly the token sequence accepted by ok (no white space, comments or extra tokens)
+func spelledAs(s string, ok func(toks []parser.Token) bool) bool {
+	toks, err := parser.Tokenize([]byte(s))
+	if err != nil || len(toks) == 0 {
+		return false
+	}
+	toks = toks[:len(toks)-1] // EOF
+	var sb strings.Builder
+	for _, t := range toks {
+		sb.WriteString(t.Text)
+	}
+	return sb.String() == s && ok(toks)
+}
+
+// isEntityTypeName: Ident { '::' Ident }
+func isEntityTypeName(s string) bool {
+	return spelledAs(s, func(toks []parser.Token) bool {
+		if len(toks)%2 == 0 {
+			return false
+		}
+		for i, t := range toks {
+			if i%2 == 0 && t.Type != parser.TokenIdent || i%2 == 1 && t.Text != "::" {
+				return false
+			}
+		}
+		return true
+	})
+}
+
+// isAnnotationKey: an identifier or a reserved keyword, as the text parser accepts
+func isAnnotationKey(s string) bool {
+	return spelledAs(s, func(toks []parser.Token) bool {
+		return len(toks) == 1 && (toks[0].Type == parser.TokenIdent || toks[0].Type == parser.TokenReservedKeyword)
+	})
+}
+
+func checkEntityType(s string) error {
+	if !isEntityTypeName(s) {
+		return fmt.Errorf("invalid entity type name %q", s)
+	}
+	return nil
+}
+
+func checkEntityUID(e types.ImplicitlyMarshaledEntityUID) error {
+	return checkEntityType(string(e.Type))
+}
+
+// checkValueNames checks the entity types inside a literal value
+func checkValueNames(v types.Value) error {
+	switch t := v.(type) {
+	case types.EntityUID:
+		return checkEntityType(string(t.Type))
+	case types.Set:
+		for e := range t.All() {
+			if err := checkValueNames(e); err != nil {
+				return err
+			}
+		}
+	case types.Record:
+		for _, e := range t.All() {
+			if err := checkValueNames(e); err != nil {
+				return err
+			}
+		}
+	}
+	return nil
+}
 
 type isPrincipalResourceScopeNode interface {
 	ast.IsPrincipalScopeNode
 	ast.IsResourceScopeNode
 }
 
+// checkNames checks every entity type the scope names
+func (s *scopeJSON) checkNames() error {
+	if s.Entity != nil {
+		if err := checkEntityUID(*s.Entity); err != nil {
+			return err
+		}
+	}
+	for _, e := range s.Entities {
+		if err := checkEntityUID(e); err != nil {
+			return err
+		}
+	}
+	if s.Op == "is" {
+		if err := checkEntityType(s.EntityType); err != nil {
+			return err
+		}
+		if s.In != nil {
+			return checkEntityUID(s.In.Entity)
+		}
+	}
+	return nil
+}
+
 func (s *scopeJSON) ToPrincipalResourceNode() (isPrincipalResourceScopeNode, error) {
+	if err := s.checkNames(); err != nil {
+		return nil, err
+	}
 	switch s.Op {
 	case "All":
 		return ast.Scope{}.All(), nil
@@ -43,6 +141,9 @@ func (s *scopeJSON) ToPrincipalResourceNode() (isPrincipalResourceScopeNode, err
 }
 
 func (s *scopeJSON) ToActionNode() (ast.IsActionScopeNode, error) {
+	if err := s.checkNames(); err != nil {
+		return nil, err
+	}
 	switch s.Op {
 	case "All":
 		return ast.Scope{}.All(), nil
@@ -98,6 +199,9 @@ func (j likeJSON) ToNode(f func(a ast.Node, k types.Pattern) ast.Node) (ast.Node
 	return f(left, j.Pattern), nil
 }
 func (j isJSON) ToNode() (ast.Node, error) {
+	if err := checkEntityType(j.EntityType); err != nil {
+		return ast.Node{}, err
+	}
 	left, err := j.Left.ToNode()
 	if err != nil {
 		return ast.Node{}, fmt.Errorf("error in left: %w", err)
@@ -186,6 +290,9 @@ func (n nodeJSON) ToNode() (ast.Node, error) {
 	switch {
 	// Value
 	case n.Value != nil:
+		if err := checkValueNames(n.Value.v); err != nil {
+			return ast.Node{}, err
+		}
 		return ast.Value(n.Value.v), nil
 
 	// Var
@@ -314,6 +421,9 @@ func (p *Policy) UnmarshalJSON(b []byte) error {
 		return fmt.Errorf("unknown effect: %v", j.Effect)
 	}
 	for _, k := range slices.Sorted(maps.Keys(j.Annotations)) {
+		if !isAnnotationKey(k) {
+			return fmt.Errorf("invalid annotation key %q", k)
+		}
 		p.unwrap().Annotate(types.Ident(k), types.String(j.Annotations[k]))
 	}
 	var err error
